@@ -2,13 +2,15 @@ CONSTANT M = 1048576
 CONSTANT Cap = 512
 CONSTANT N = 5
 CONSTANT BigMode = FALSE
+CONSTANT HistMode = FALSE
+CONSTANT MutMax = 4
 CONSTANT Stores <- MCStores
 CONSTANT Origins <- MCOrigins
 CONSTANT Amounts <- MCAmounts
 CONSTANT HashTargets <- MCHashTargets
 CONSTANT HashLens <- MCHashLens
 CONSTANT SmallAmounts <- MCSmallAmounts
-INIT Init
+INIT GenInit
 NEXT GenNext
-VIEW View
+VIEW GenView
 CHECK_DEADLOCK FALSE
